@@ -1538,6 +1538,36 @@ class Interp:
                                 for _ in range(v)])
                 return Vec([copy_value(fill) for _ in range(v)])
             raise OutOfFragment("vector constructor from %r" % (vals,))
+        if rq.startswith(("std::set<", "std::multiset<")):
+            # ordered container of scalars / integers: a sorted vector; insertion uses only operator< (equivalent keys are
+            # dropped by std::set - an unordered value is "equivalent" to whatever it is compared with first)
+            multi = rq.startswith("std::multiset<")
+            src = []
+            if vals:
+                v = vals[0]
+                if isinstance(v, Vec) and len(vals) == 1:
+                    src = list(v.items)
+                elif isinstance(v, Iter) and len(vals) >= 2 and isinstance(vals[1], Iter):
+                    src = list(v.vec.items[v.pos:vals[1].pos])
+                elif isinstance(v, SinglePass) and len(vals) >= 2:
+                    src = v.take_all()
+                else:
+                    raise OutOfFragment("std::set constructor from %r" % (vals,))
+            out = []
+            for x in src:
+                pos, dup = len(out), False
+                for i, y in enumerate(out):
+                    if self._less(None, x, y):
+                        pos = i
+                        break
+                    if not self._less(None, y, x):
+                        dup, pos = True, i + 1
+                        if not multi:
+                            break
+                if dup and not multi:
+                    continue
+                out.insert(pos, copy_value(x))
+            return Vec(out)
         if rq.startswith("std::shared_ptr<"):
             if not vals:
                 return SharedPtr(None)
